@@ -25,14 +25,15 @@ def sh(cmd, cwd=None, timeout=3600, env=None):
 
 def main():
     tag = sys.argv[1]
-    prop = tag[:3]
+    round2 = not tag.startswith('C')
+    src = '/tmp/seed_out2' if round2 else '/tmp/seed_out/%s' % tag[:3]
+    prop = json.load(open(os.path.join(src, tag + '_meta.json')))['property'] if round2 else tag[:3]
     checks = [prop]
     tests = None
     if '--checks' in sys.argv:
         checks = sys.argv[sys.argv.index('--checks') + 1].split(',')
     if '--tests' in sys.argv:
         tests = sys.argv[sys.argv.index('--tests') + 1]
-    src = '/tmp/seed_out/%s' % prop
     patch = os.path.join(src, tag + '_patch.diff')
     demo = os.path.join(src, tag + '_demo.py')
     meta = json.load(open(os.path.join(src, tag + '_meta.json'))) if os.path.exists(os.path.join(src, tag + '_meta.json')) else {}
